@@ -253,7 +253,9 @@ def run(ctx, model_ok=True):
                 ctx.mismatch('fault-free run raised', d, impl=res['raised'],
                              is_violation={'kind': 'raise', **d, 'rows': rows, 'cols': cols, 'step': step, 'box': box, 'what': res['raised']})
                 continue
-            lay = (job['n'], job['mask'])
+            # the stripe LAYOUT (first rows of the realised stripes, from the trace), not merely their number: 3 and 4 requested
+            # stripes can both realise 4 stripes of different widths
+            lay = (tuple(sorted({s_ for _, s_, _ in ev})), job['mask'])
             sig = (res['bkg_sha'], res['rms_sha'])
             if lay in ref and ref[lay][0] != sig:
                 ctx.mismatch('result depends on the schedule / worker count', {'a': ref[lay][1], 'b': d}, impl=sig, model=ref[lay][0],
